@@ -770,9 +770,20 @@ func (g *c08_gen) val(t *c08_MTy, depth int, inMap bool) reflect.Value {
 			g.boundary = true
 			break // nil map
 		}
+		// several entries: only entries whose conversion alone ends in the same class (ok / error /
+		// panic) are kept, so that the outcome cannot depend on Go's map iteration order (since the
+		// repair of C08-uint64-wraps-negative a VALUE can be rejected, not only a type)
 		m := reflect.MakeMap(rt)
+		first := ""
 		for i := 0; i < n; i++ {
-			m.SetMapIndex(reflect.ValueOf(Pick(g.r, c08_keyPool)), g.val(t.E, depth, true))
+			ev := g.val(t.E, depth, true)
+			cls := c08_fromClass(t.E, ev)
+			if first == "" {
+				first = cls
+			}
+			if cls == first {
+				m.SetMapIndex(reflect.ValueOf(Pick(g.r, c08_keyPool)), ev)
+			}
 		}
 		v.Set(m)
 	case "struct":
@@ -1248,7 +1259,7 @@ type c08Run struct {
 // framework) does not list them, a case that falls under one AND on which the real code agrees
 // with the Impl model is reported as a note instead of a Spec violation; once listed it is an
 // ordinary KNOWN-FINDING.  Any disagreement with the model is still raised.
-var c08_proposed = map[string]bool{"C08-surplus-arguments-dropped": true, "C08-slice-element-write-lost": true}
+var c08_proposed = map[string]bool{"C08-slice-element-write-lost": true}
 
 var c08_listedCache map[string]bool
 
@@ -2054,7 +2065,10 @@ func (g *c08_gen) structTy(depth int) *c08_MTy {
 
 func c08_ip(i int) *int { return &i }
 
-// directed cases: one per recorded finding plus the plain paths, so that every run revisits them
+// directed cases: one per recorded finding, one per REPAIRED finding (uint64 >= 2^63, nil global,
+// unconvertible global through Eval, surplus arguments, integers out of range, lists longer than
+// the array, declared types of a basic kind: the model says error / nil, so a recurrence of the old behaviour is a disagreement
+// with the model AND an unlisted Spec violation) plus the plain paths, so that every run revisits them
 func (r *c08Run) directed() {
 	one := 1
 	var nilp *int
@@ -2065,20 +2079,30 @@ func (r *c08Run) directed() {
 		}
 		r.rtCase(t, "create", rv, true)
 	}
-	rt(c08_namedMenu[0].mty, time.Second)                          // C08-named-type-panic
-	rt(c08_mUint(64), uint64(1)<<63)                               // C08-uint64-wraps-negative
-	rt(c08_mUint(0), ^uint(0))                                     //   "
-	rt(c08_mSlice(c08_mPtr(c08_mInt(0))), []*int{nil, &one})       // C08-nil-element-panic-or-drop
-	rt(c08_mMap(c08_mk("iface")), map[string]any{"a": nil})        //   " (dropped)
-	rt(c08_mPtr(c08_mPtr(c08_mInt(0))), &nilp)                     // C08-nil-pointer-collapse
-	rt(c08_mInt(64), int64(math.MinInt64))                         // clean
-	rt(c08_mk("f32"), float32(0.1))                                // clean
-	rt(c08_mSlice(c08_mNPoint), []c08_NPoint{{1, "a"}})            // clean
-	rt(c08_mMap(c08_mSlice(c08_mk("str"))), map[string][]string{}) // clean
-	r.nilGlobalCase()                                              // C08-nil-global-panic
+	rt(c08_namedMenu[0].mty, time.Second)                                                   // repaired (C08-named-type-panic): time.Duration crosses as its int64
+	rt(c08_namedMenu[4].mty, c08_NStr("n"))                                                 //   " a declared string type
+	rt(c08_mSlice(c08_namedMenu[0].mty), []time.Duration{1, -1})                            //   " as a slice element
+	rt(c08_mPtr(c08_namedMenu[8].mty), func() *c08_NI16 { x := c08_NI16(-7); return &x }()) //   " behind a pointer
+	rt(c08_namedMenu[6].mty, c08_NU64(1)<<63)                                               // repaired twice: a declared uint64 >= 2^63 is rejected
+	rt(c08_mPtr(c08_namedMenu[9].mty), &c08_NIDs{1})                                        // C08-declared-container-type
+	rt(c08_namedMenu[9].mty, c08_NIDs{1, 2})                                                // a declared slice type on its own crosses
+	rt(c08_mUint(64), uint64(1)<<63)                                                        // repaired (C08-uint64-wraps-negative): rejected
+	rt(c08_mUint(0), ^uint(0))                                                              //   "
+	rt(c08_mUint(64), uint64(1)<<63-1)                                                      // the largest value that crosses
+	rt(c08_mSlice(c08_mUint(64)), []uint64{1, 1 << 63})                                     // repaired: the whole slice is rejected
+	rt(c08_mMap(c08_mUint(0)), map[string]uint{"a": 1, "b": 1 << 63})                       //   " the whole map
+	rt(c08_mSlice(c08_mPtr(c08_mInt(0))), []*int{nil, &one})                                // C08-nil-element-panic-or-drop
+	rt(c08_mMap(c08_mk("iface")), map[string]any{"a": nil})                                 //   " (dropped)
+	rt(c08_mPtr(c08_mPtr(c08_mInt(0))), &nilp)                                              // C08-nil-pointer-collapse
+	rt(c08_mInt(64), int64(math.MinInt64))                                                  // clean
+	rt(c08_mk("f32"), float32(0.1))                                                         // clean
+	rt(c08_mSlice(c08_mNPoint), []c08_NPoint{{1, "a"}})                                     // clean
+	rt(c08_mMap(c08_mSlice(c08_mk("str"))), map[string][]string{})                          // clean
+	r.nilGlobalCase()                                                                       // repaired (C08-nil-global-panic): the script sees nil
 	r.evalGlobalCase(c08_namedMenu[0].mty, reflect.ValueOf(time.Second))
 	r.evalGlobalCase(c08_mInt(0), reflect.ValueOf(7))
-	r.evalGlobalCase(c08_mk("chan"), reflect.ValueOf((chan int)(nil))) // C08-global-error-panics
+	r.evalGlobalCase(c08_mk("chan"), reflect.ValueOf((chan int)(nil))) // repaired (C08-global-error-panics): Eval returns an error
+	r.evalGlobalCase(c08_mUint(64), reflect.ValueOf(uint64(1)<<63))    // repaired twice: From rejects, Eval returns the error
 	five := any(5)
 	rt(c08_mPtr(c08_mk("iface")), &five) // C08-pointer-to-interface-panics
 
@@ -2086,12 +2110,18 @@ func (r *c08Run) directed() {
 	sv := reflect.New(st.RT()).Elem()
 	r.getCase(st, sv, 0, true)
 	r.getCase(st, sv, 2, true)
-	r.setCase(st, sv, 0, object.NewInt(300), true) // C08-lossy-narrowing
-	r.setCase(st, sv, 0, object.NewInt(-5), false) // clean
+	r.setCase(st, sv, 0, object.NewInt(300), true)   // repaired (C08-lossy-narrowing, integers): rejected
+	r.setCase(st, sv, 0, object.NewInt(-129), true)  //   "
+	r.setCase(st, sv, 0, object.NewByte(200), true)  //   " (a byte that an int8 cannot hold)
+	r.setCase(st, sv, 0, object.NewInt(127), true)   // the largest value that fits
+	r.setCase(st, sv, 0, object.NewFloat(2.7), true) // C08-lossy-float-conversion
+	r.setCase(st, sv, 0, object.NewInt(-5), false)   // clean
 	r.setCase(st, sv, 1, object.NewString("hi"), false)
 	npx, _ := object.NewProxy(&c08_NPoint{F0: 2})
 	r.setCase(st, sv, 2, npx, true)                                                                                   // C08-struct-field-set-panics
-	r.setCase(st, sv, 3, object.NewList([]object.Object{object.NewInt(1), object.NewInt(2), object.NewInt(3)}), true) // C08-array-length-unchecked
+	r.setCase(st, sv, 3, object.NewList([]object.Object{object.NewInt(1), object.NewInt(2), object.NewInt(3)}), true) // repaired (C08-array-length-unchecked): a longer list is rejected
+	r.setCase(st, sv, 3, object.NewList([]object.Object{object.NewInt(1)}), true)                                     // C08-array-short-list-padded
+	r.setCase(st, sv, 3, object.NewList([]object.Object{object.NewInt(1), object.NewInt(2)}), true)                   // clean
 	r.setCase(st, sv, 4, object.NewInt(9), false)
 	r.evalSetCase(st, sv, 0, object.NewInt(300))
 	r.evalSetCase(st, sv, 1, object.NewString("hi"))
@@ -2107,6 +2137,14 @@ func (r *c08Run) directed() {
 			r.callCase(m, bx, true) // C08-proxy-type-unchecked
 		case "E15":
 			r.callCase(m, object.NewInt(3), true) // named type, script → Go
+		case "E09":
+			r.callCase(m, object.NewInt(-1), true) // repaired (C08-lossy-narrowing, integers): -1 is no uint64
+		case "E06":
+			r.callCase(m, object.NewInt(256), true) //   " 256 is no uint8
+		case "E24":
+			r.callCase(m, object.NewList([]object.Object{object.NewInt(1), object.NewInt(2), object.NewInt(3)}), true) // repaired: [2]int parameter, three items
+		case "E44":
+			r.callCase(m, object.NewList([]object.Object{object.NewInt(math.MaxInt64)}), true) // []uint64 and back: fits
 		}
 	}
 	_ = c08_ip
@@ -2120,8 +2158,10 @@ func (r *c08Run) directed() {
 	r.callNCase(c08_methodN("M32"), []object.Object{num(1), object.NewFloat(2.5), object.True}, true)
 	r.callNCase(c08_methodN("M41"), []object.Object{str("a"), object.Nil, str("b"), object.Nil}, true)
 	r.callNCase(c08_methodN("M33"), []object.Object{object.Nil, object.Nil, object.Nil}, false)
-	r.callNCase(c08_methodN("M20"), []object.Object{num(1)}, true)                   // too few
-	r.callNCase(c08_methodN("M20"), []object.Object{num(1), str("x"), num(9)}, true) // C08-surplus-arguments-dropped
+	r.callNCase(c08_methodN("M20"), []object.Object{num(1)}, true)                                                // too few
+	r.callNCase(c08_methodN("M20"), []object.Object{num(1), str("x"), num(9)}, true)                              // repaired (C08-surplus-arguments-dropped): args error
+	r.callNCase(c08_methodN("M32"), []object.Object{num(1), object.NewFloat(2.5), object.True, object.Nil}, true) //   " (a surplus nil)
+	r.callNCase(c08_methodN("M20"), []object.Object{num(1), str("x")}, true)                                      // exactly enough
 
 	// one VM, the same global name supplied again with a new value
 	iv := func(i int) reflect.Value { return reflect.ValueOf(i) }
